@@ -506,3 +506,38 @@ def machine_drive(make_machine, n, steps, seed_, ev, known_keys=(), check_name=N
         if round_ == max_keys:
             break
     return list(collected.values())
+
+
+def collect_cases(strategy, n, seed_):
+    """Draw n cases from a strategy deterministically (no check attached, nothing to shrink)."""
+    from hypothesis import HealthCheck, Phase, given, seed, settings
+
+    out = []
+
+    @seed(seed_)
+    @settings(max_examples=n, database=None, deadline=None, phases=[Phase.generate], suppress_health_check=list(HealthCheck))
+    @given(strategy)
+    def run(case):
+        out.append(case)
+
+    run()
+    return out
+
+
+def run_worker(module, function, cases, hashseed, keep_state=False, timeout=1800):
+    """Run vf.worker in a fresh interpreter with the given PYTHONHASHSEED ('random' allowed)."""
+    import subprocess
+
+    env = dict(os.environ, PYTHONHASHSEED=str(hashseed), PYTHONDONTWRITEBYTECODE="1", VERIF_REPO=REPO)
+    p = subprocess.run(
+        [sys.executable, "-m", "vf.worker", module, function],
+        input=json.dumps({"cases": cases, "keep_state": keep_state}),
+        capture_output=True,
+        text=True,
+        env=env,
+        cwd=VERIF,
+        timeout=timeout,
+    )
+    if p.returncode != 0:
+        raise HarnessError("worker %s.%s failed (hash seed %s): %s" % (module, function, hashseed, p.stderr[-2000:]))
+    return json.loads(p.stdout)["results"]
